@@ -10,11 +10,13 @@
 //!   `clock <ns per node|->`       virtual clock (elapsed = nodes * ns)
 //!   `poll <N|->`                  poll period
 //!   `board`                       read back the position held by the search
+//!   `tt <plies>`                  transposition-table entries of all positions within <plies> legal moves of the held position
 //! Answer: per command, joined by ` ; `:
 //!   pos/new/clock/poll -> `.`   (`E` when the position command was rejected by the parser)
 //!   go...  -> `I:<depth>:<time ms>:<nodes>:<score>:<pv>` per info message (`-` for absent parts, score `cp<v>`/`mate<n>`,
 //!             pv moves joined by `,`) then `B:<bestmove|0000>:<ponder|->` per bestmove message
 //!   board  -> `F:<fen_>`
+//!   tt     -> `T:<path>:<draft>:<value>:<E|L|U>:<stored move value>` per entry (`T-` when none)
 
 use std::sync::mpsc::{channel, Receiver, Sender};
 use std::sync::Arc;
@@ -118,6 +120,37 @@ impl Session {
     pub fn nodes(&self) -> u64 {
         self.search.verif_negamax_nodes()
     }
+
+    /// Every transposition-table entry stored for a position reachable from the held position by at most `max_ply` legal
+    /// moves: `T:<uci path|->:<draft>:<value>:<E|L|U>:<value of the stored move>`
+    pub fn tt_scan(&self, max_ply: usize) -> String {
+        let mut out = Vec::new();
+        if let Ok(mut board) = inkayaku_board::Bitboard::from_fen_string(&self.search.verif_board_fen()) {
+            let mut path = Vec::new();
+            self.tt_walk(&mut board, max_ply, &mut path, &mut out);
+        }
+        if out.is_empty() { "T-".into() } else { out.join(" ") }
+    }
+
+    fn tt_walk(&self, board: &mut inkayaku_board::Bitboard, left: usize, path: &mut Vec<String>, out: &mut Vec<String>) {
+        if let Some((draft, value, kind, mv_value)) = self.search.verif_tt_entry(board.calculate_zobrist_hash()) {
+            out.push(format!(
+                "T:{}:{}:{}:{}:{}",
+                if path.is_empty() { "-".to_string() } else { path.join(",") },
+                draft, value, ["E", "L", "U"][kind as usize], mv_value
+            ));
+        }
+        if left == 0 {
+            return;
+        }
+        for mv in board.generate_legal_moves() {
+            board.make(mv);
+            path.push(mv.to_uci_string());
+            self.tt_walk(board, left - 1, path, out);
+            path.pop();
+            board.unmake(mv);
+        }
+    }
 }
 
 pub fn render_out(cmds: &[UciTxCommand]) -> String {
@@ -206,6 +239,7 @@ pub fn session_op(args: &[&str]) -> String {
                 answers.push(".".into());
             }
             "board" => answers.push(format!("F:{}", s.board_fen().replace(' ', "_"))),
+            "tt" => answers.push(s.tt_scan(cmd.get(1).and_then(|t| t.parse::<usize>().ok()).unwrap_or(0))),
             _ => answers.push("bad-request".into()),
         }
     }
